@@ -9,6 +9,7 @@ value that follows this path.
 
 Nothing here knows pyikev2; the module shims live in shims.py.
 """
+import os
 import struct as _struct
 import time as _time
 import z3
@@ -271,6 +272,8 @@ class SymInt:
     def __invert__(self): return _mk_int(~self.t)
 
     def __truediv__(self, o):
+        if os.environ.get('SYMX_DEBUG_DIV'):
+            import traceback; traceback.print_stack(limit=8)
         raise Unsupported('float division on a symbolic int')
 
     # comparisons (signed)
